@@ -210,10 +210,109 @@ fn dfs2(ctx: &Ctx, p: &Prog, alphabet: &[Act], depth: usize, hist: &mut Vec<Act>
     }
 }
 
+
+// ---------------------------------------------------------------------------
+// Third sub-box: a run that panics inside an operator must not affect later runs
+// (on the same thread or on another one): no lock may stay poisoned or held.
+
+#[derive(Debug)]
+struct PanicIfNegative;
+
+impl rten::verif::operator::Operator for PanicIfNegative {
+    fn name(&self) -> &str {
+        "PanicIfNegative"
+    }
+    fn run(&self, ctx: &rten::verif::operator::OpRunContext) -> Result<rten::verif::operator::OutputList, rten::verif::operator::OpError> {
+        use rten::verif::operator::IntoOpResult;
+        let x: rten_tensor::TensorView<f32> = ctx.inputs().require_as(0)?;
+        if x.iter().any(|v| *v < 0.0) {
+            panic!("operator panicked on purpose (harness)");
+        }
+        rten::Value::from(x.map(|v| v + 1.0)).into_op_result()
+    }
+    fn max_inputs(&self) -> Option<usize> {
+        Some(1)
+    }
+    fn output_types(&self, _ctx: &rten::verif::operator::OutputTypesContext) -> Option<rten::verif::operator::OutputTypeList> {
+        None
+    }
+    fn as_infer_shapes(&self) -> Option<&dyn rten_shape_inference::InferShapes> {
+        None
+    }
+}
+
+/// Histories over {ok run, panicking run} x {same thread, fresh thread} of depth <= 3 on one graph.
+fn panic_histories(ctx: &Ctx) -> (u64, u64) {
+    use rten::verif::graph::Graph;
+    let mut histories = 0u64;
+    let mut runs = 0u64;
+    // action: (panics, other_thread)
+    let acts = [(false, false), (true, false), (false, true), (true, true)];
+    let mut all: Vec<Vec<(bool, bool)>> = vec![vec![]];
+    for _ in 0..3 {
+        let mut next = Vec::new();
+        for h in &all {
+            for a in acts {
+                let mut h2 = h.clone();
+                h2.push(a);
+                next.push(h2);
+            }
+        }
+        all.extend(next.clone());
+        all.sort();
+        all.dedup();
+    }
+    for hist in all.iter().filter(|h| !h.is_empty()) {
+        histories += 1;
+        let mut g = Graph::new();
+        let x = g.add_value(Some("x"), None, None);
+        let y = g.add_value(Some("y"), None, None);
+        g.add_op(Some("p"), std::sync::Arc::new(PanicIfNegative), &[Some(x)], &[Some(y)]);
+        let g = std::sync::Arc::new(g);
+        for (step, &(panics, other_thread)) in hist.iter().enumerate() {
+            runs += 1;
+            let g2 = g.clone();
+            let call = move || -> Result<Result<Vec<f32>, String>, String> {
+                let t = rten_tensor::Tensor::from_data(&[2], vec![if panics { -1.0f32 } else { 1.0 }, 2.0]);
+                vp_core::catch(|| {
+                    g2.run(vec![(x, t.view().into())], &[y], None, None).map_err(|e| format!("{e}")).and_then(|mut v| {
+                        let t: rten_tensor::Tensor<f32> = v.remove(0).try_into().map_err(|_| "not f32".to_string())?;
+                        Ok(t.to_vec())
+                    })
+                })
+            };
+            let r = if other_thread { std::thread::spawn(call).join().unwrap_or_else(|_| Err("thread died".into())) } else { call() };
+            let case = || json!({"panic_history": hist.iter().map(|a| json!([a.0, a.1])).collect::<Vec<_>>()});
+            match (panics, r) {
+                (true, Err(_)) => {}
+                (true, other) => ctx.observe(&format!("a deliberately panicking operator did not panic: {other:?}")),
+                (false, Ok(Ok(v))) if v == vec![2.0, 3.0] => {}
+                (false, other) => {
+                    if hist[..step].iter().any(|a| a.0) {
+                        ctx.violation(
+                            "a run fails or panics after an earlier run panicked inside an operator (state left behind by the earlier run)".to_string(),
+                            case(),
+                            format!("run #{} of history {hist:?} returned {other:?}, expected [2, 3]", step + 1),
+                        );
+                    } else {
+                        ctx.violation("a plain run of the panic-history graph fails".to_string(), case(), format!("{other:?}"));
+                    }
+                    break;
+                }
+            }
+        }
+    }
+    (histories, runs)
+}
+
 pub fn run(ctx: Ctx) -> ! {
     let alphabet = acts();
     if let Some(path) = &ctx.replay {
         let case = vp_core::read_replay_case(path);
+        if !case["panic_history"].is_null() {
+            let (h, r) = panic_histories(&ctx);
+            ctx.finish("model_checking", json!({"states": h, "transitions": r, "traces_validated_against_impl": h, "samples": [case]}), vec![]);
+        }
         let p = Prog::from_json(&case["program"]);
         let hist: Vec<Act> = case["history"].as_array().unwrap().iter().map(|a| Act { fill: a[0].as_u64().unwrap() as u8, owned: a[1].as_bool().unwrap(), outs: a[2].as_u64().unwrap() as u8, extra: a.get(3).and_then(|x| x.as_u64()).unwrap_or(0) as u8 }).collect();
         let mut st = St::default();
@@ -246,7 +345,10 @@ pub fn run(ctx: Ctx) -> ! {
         t.programs += st.programs;
         t.states.extend(st.states);
     });
-    let t = total.into_inner().unwrap();
+    let (ph, pr) = panic_histories(&ctx);
+    let mut t = total.into_inner().unwrap();
+    t.histories += ph;
+    t.runs += pr;
     if t.runs < 10_000 {
         ctx.machinery("C25 vacuous");
     }
@@ -259,6 +361,7 @@ pub fn run(ctx: Ctx) -> ! {
         "programs": t.programs,
         "history_depth": depth,
         "alphabet_size": alphabet.len(),
+        "panic_histories": format!("{ph} histories of depth <=3 over {{ok run, run that panics inside an operator}} x {{same thread, fresh thread}} on a graph built through the hook re-exports: a run after a panicking run must succeed with the right value (no poisoned or held lock)"),
         "supplied_intermediates_sub_box": "alphabet {no extra, each operator-output value supplied by the caller with contents = computed + 16} x {borrowed, owned} x {all values, last op output}, fill 0; every history of depth <=2 in which at least one run supplies an intermediate",
         "explanation": "states = distinct (program, history) pairs (the model's only mutable state, the cached plan, is a function of the history); transitions = Model::run calls; every history runs on a freshly loaded real model",
     });
